@@ -371,7 +371,26 @@ impl Runner {
       };
       let _ = tx.send((index, res));
     });
-    match rx.recv_timeout(self.opts.update_timeout) {
+    // the watchdog must not mistake a slow machine for a hang: the allowance grows with the system load
+    // (16 cores; at load 8 or below it is the configured timeout, at load 96 twelve times that)
+    let started = std::time::Instant::now();
+    let outcome = loop {
+      match rx.recv_timeout(Duration::from_millis(500)) {
+        Ok(x) => break Ok(x),
+        Err(mpsc::RecvTimeoutError::Disconnected) => break Err(()),
+        Err(mpsc::RecvTimeoutError::Timeout) => {
+          let load = std::fs::read_to_string("/proc/loadavg")
+            .ok()
+            .and_then(|s| s.split_whitespace().next().and_then(|x| x.parse::<f64>().ok()))
+            .unwrap_or(1.0);
+          let allowance = self.opts.update_timeout.mul_f64((load / 8.0).clamp(1.0, 12.0));
+          if started.elapsed() > allowance {
+            break Err(());
+          }
+        }
+      }
+    };
+    match outcome {
       Ok((index, (result, text))) => {
         let _ = handle.join();
         self.index = Some(index);
